@@ -208,6 +208,26 @@ mod verif_cex {
         content_end: (usize, usize),
     }
 
+    /// The same file with CRLF line breaks (every `\n` becomes `\r\n`); all recorded byte offsets move with it.
+    /// Lines and byte columns within a line are unchanged: a `\r` only ever precedes a `\n`.
+    /// A LINE comment (`// ..`, `# ..`) runs to the line break in both grammars, and the grammars' "any character
+    /// but newline" includes the `\r`: the comment node of a CRLF file ends after the `\r` (observed on the real
+    /// crates; which bytes belong to a comment is the grammar's decision, T-ext). Block comments end at `*/`.
+    fn to_crlf(g: &Generated, line_comments: bool) -> Generated {
+        let map = |off: usize| off + g.text[..off].matches('\n').count();
+        let text = g.text.replace('\n', "\r\n");
+        let end_of = |b: usize| {
+            let e = map(b);
+            if line_comments && text.as_bytes().get(e) == Some(&b'\r') { e + 1 } else { e }
+        };
+        Generated {
+            lang: g.lang,
+            events: g.events.iter().map(|e| Ev { is_start: e.is_start, attrs: e.attrs.clone(), lt: map(e.lt), gt: map(e.gt), comment: e.comment }).collect(),
+            comments: g.comments.iter().map(|(a, b)| (map(*a), end_of(*b))).collect(),
+            text,
+        }
+    }
+
     fn expected_blocks(g: &Generated, kinds: &[bool]) -> Option<Vec<ExpBlock>> {
         if !balanced(kinds) {
             return None;
@@ -429,6 +449,12 @@ mod verif_cex {
                                         "before_comment": format!("{lead:?}"),
                                     });
                                     check(unit, &parsers, &g, &kinds, &describe, &mut cases);
+                                    // the same file with CRLF line breaks (up to 4 tags)
+                                    if n <= 4 {
+                                        let mut describe_crlf = describe.clone();
+                                        describe_crlf["line_breaks"] = json!("CRLF");
+                                        check(unit, &parsers, &to_crlf(&g, *style == Style::Line), &kinds, &describe_crlf, &mut cases);
+                                    }
                                 }
                             }
                         }
@@ -438,7 +464,7 @@ mod verif_cex {
         }
         (
             cases,
-            "every sequence of 0..=6 start/end tags (balanced or not) x every way of distributing them over comments (several tags per comment) x {rust: line, one-line block, multi-line block, star-decorated block; python: line} x {newline, code, string literal with decoy tags, same line} between comments x {no, indent, code} before the comment; thinned for 5 and 6 tags",
+            "every sequence of 0..=6 start/end tags (balanced or not) x every way of distributing them over comments (several tags per comment) x {rust: line, one-line block, multi-line block, star-decorated block; python: line} x {newline, code, string literal with decoy tags, same line} between comments x {no, indent, code} before the comment; thinned for 5 and 6 tags; every file of up to 4 tags also with CRLF line breaks",
         )
     }
 
